@@ -37,6 +37,9 @@ func ocspAlphabet() []ocspBehav {
 		R("issuer", "match", ocsp.Good, "+1h", "after"),
 		R("issuer", "match", ocsp.Unknown, "+1h", "after"),
 		R("delegate-noeku", "match", ocsp.Revoked, "+1h", "after"),
+		R("delegate-othereku", "match", ocsp.Good, "+1h", "none"),
+		R("sibling-issuer-name", "match", ocsp.Good, "+1h", "none"),
+		R("sibling-issuer-name", "match", ocsp.Revoked, "+1h", "after"),
 	}
 	c := R("issuer", "match", ocsp.Good, "+1h", "none")
 	c.Crit = true
@@ -101,7 +104,7 @@ func genC04(tier string, rng *RNG, w *CaseWriter) {
 	al := ocspAlphabet()
 	w.Extra["alphabet"] = len(al)
 	for _, a := range al {
-		for _, st := range []time.Time{{}, stRef} {
+		for _, st := range []time.Time{{}, stRef, stRef.Add(600 * time.Millisecond), stRef.Add(-400 * time.Millisecond)} {
 			for _, entry := range []int{0, 1} {
 				runOCSPCase(w, []ocspBehav{a}, entry, st, 0, nil)
 			}
